@@ -94,6 +94,7 @@ pub struct Recorder {
     pub weight_min: std::sync::atomic::AtomicI64,
     pub weight_max_seen: std::sync::atomic::AtomicI64,
     pub check_weight_bounds: AtomicBool,
+    pub weight_last: std::sync::atomic::AtomicI64,
     /// OS thread ids of sweeper (timer) threads: they wake on their own and are ignored by the hang test
     pub timer_tids: Mutex<HashSet<u64>>,
 }
@@ -128,6 +129,7 @@ pub fn recorder() -> &'static Arc<Recorder> {
             weight_min: std::sync::atomic::AtomicI64::new(0),
             weight_max_seen: std::sync::atomic::AtomicI64::new(0),
             check_weight_bounds: AtomicBool::new(true),
+            weight_last: std::sync::atomic::AtomicI64::new(0),
             timer_tids: Mutex::new(HashSet::new()),
         });
         let sink_recorder = recorder.clone();
@@ -160,8 +162,13 @@ impl Recorder {
                 self.weight_events.fetch_add(1, Ordering::Relaxed);
                 self.weight_min.fetch_min(*new_total, Ordering::Relaxed);
                 self.weight_max_seen.fetch_max(*new_total, Ordering::Relaxed);
+                // a violation is a *crossing*: the previous total was inside the bounds, the new one is outside
+                // (events are emitted under the total's write lock, so they arrive in the order of the changes)
+                let previous = self.weight_last.swap(*new_total, Ordering::Relaxed);
+                let was_inside = previous >= 0 && previous <= *max_weight;
                 if self.check_weight_bounds.load(Ordering::Relaxed)
                     && !matches!(site, verif::WeightSite::Clear)
+                    && was_inside
                     && (*new_total < 0 || *new_total > *max_weight) {
                     let mut violations = self.weight_violations.lock().unwrap();
                     if violations.len() < 64 { violations.push((format!("{:?}", site), *key_id, *new_total, *max_weight)); }
